@@ -419,6 +419,12 @@ def run(ctx):
     ctx.matchers['c04_dask_negstep_start_below_minus_len'] = m_dask_negstep
     ctx.matchers['c04_dask_zero_width_chunk'] = m_dask_zero_chunk
     build = common.build_and_audit('C04', ctx.tier)
+    from harness import np_glue
+    n_glue, glue_bad = np_glue.run()
+    if glue_bad:
+        raise Broken(f'Np layer disagrees with CPython/numpy on {len(glue_bad)} of {n_glue} exhaustive small-scope '
+                     f'comparisons, e.g. {glue_bad[0]}')
+    ctx.extra['np_layer_glue_test'] = {'comparisons': n_glue, 'mismatches': 0, 'kind': 'exhaustive small scope (a test)'}
     n_chain = ctx.q(700, 30000)
     n_read = ctx.q(120, 3000)
     cases = corpus_cases()
